@@ -26,7 +26,8 @@ RT6 == {[k |-> "rt", type |-> "P6", value |-> v] : v \in Rec6}
 \* P7: other tag combinations of lists, and strings that begin with white space (" x", "  a\nb", "\tq", " ")
 alpha == <<97, 108, 112, 104, 97>>  beta == <<98, 101, 116, 97>>  gamma == <<103, 97, 109, 109, 97>>
 Rec7 == [CS : {<<>>, <<alpha>>, <<alpha, beta, gamma>>}, ML : {<<>>, <<<<112>>>>, <<<<112>>, <<113>>, <<114>>>>}, CN : {<<>>, <<x>>, <<x, <<121>>>>},
-         S : {<<>>, x, <<SP, 120>>, <<SP, SP, 97, LF, 98>>, <<TAB, 113>>, <<SP, SP, 105, LF, SP, 106>>}]
+         S : {<<>>, x, <<SP, 120>>, <<SP, SP, 97, LF, 98>>, <<TAB, 113>>, <<SP, SP, 105, LF, SP, 106>>,
+              <<194, 160, 105>>, <<226, 128, 131, 120, LF, 121>>, <<227, 128, 128, 122>>}]      \* ... U+00A0, U+2003, U+3000 first
 RT7 == {[k |-> "rt", type |-> "P7", value |-> v] : v \in {r \in Rec7 : r.CS # <<>> \/ r.ML # <<>> \/ r.CN # <<>> \/ r.S # <<>>}}     \* (all empty: no paragraph at all)
 Desc == {[k |-> "desc", type |-> t] : t \in {"P1", "P2", "P3", "P4", "P5", "P6", "P7"}}
 
